@@ -5,6 +5,23 @@
 
 package websocket
 
+// Lock discipline (C09). The per-connection bookkeeping of the logging decorator is written by the
+// connection's handling goroutine ("main") and must not be touched by its helper goroutines.
+
+//@ type handlerWithLogs
+//@   guarded_by counter : counterMutex
+//@   confined sessionID, sessionUUID, participantID : main
+//@   lock_level counterMutex = 70
+
+//@ func (*websocket.handlerWithLogs).Receiver$1
+//@   goroutine receiver
+
+//@ func (*websocket.handlerWithLogs).Sender$1
+//@   goroutine sender
+
+//@ func (*websocket.handlerWithLogs).startSummaryWorker
+//@   goroutine summary
+
 //@ spec fn joined(h *RealtimeHandler) bool = h.currentSession != nil && h.currentParticipant != nil
 //@ spec fn wfHandler(h *RealtimeHandler) bool = h.Sessions != nil
 //@     && ((h.currentSession == nil) <==> (h.currentParticipant == nil))
